@@ -70,10 +70,13 @@ theorem parseKey_spec (V : Variant) (K : Keys) (s : Src) (w : s.wf) :
   split
   · exact spec_fail
   · rename_i c hc
-    split
+    cases V
     · apply spec_pure (adv1.wf w)
       exact ⟨by rw [acc1]; simp, hc, by intro h; cases h⟩
-    · split
+    · apply spec_pure (adv1.wf w)
+      exact ⟨by rw [acc1]; simp, hc, by intro h; cases h⟩
+    · simp only
+      split
       · rename_i heq
         apply spec_pure (adv1.wf w)
         exact ⟨by rw [acc1]; simp, hc, fun _ => heq⟩
@@ -384,5 +387,132 @@ theorem header_reencode {V : Variant} {K : Keys} {s : Src} {h : Header} {s' : Sr
   rw [hseg]
   unfold serHeader
   rw [hc, wireList_eq_serList _ _ (by rw [hbl, hn]), wireList_eq_serList _ _ (by rw [hsl, hm])]
+
+/-! ### RawHeader and CrossChainMsg -/
+
+theorem skipIgn_spec (n : Nat) (s : Src) (w : s.wf) : SpecAt (skipIgn n) s (fun _ _ => True) :=
+  spec_of_eq (p := skipIgn n) rfl (skip_adv s n w) trivial
+
+theorem skipE_spec (n : Nat) (s : Src) (w : s.wf) : SpecAt (skipE n) s (fun _ _ => True) := by
+  have hadv := skip_adv s n w
+  cases h : skip s n with
+  | mk eof s' =>
+    rw [h] at hadv
+    cases eof
+    · exact spec_of_eq (p := skipE n) (s' := s') (a := ()) (by unfold skipE; rw [h]; rfl) hadv trivial
+    · unfold SpecAt skipE
+      rw [h]
+      trivial
+
+theorem rUintNIgn_spec (k : Nat) (hk : k < two64) (s : Src) (w : s.wf) : SpecAt (rUintNIgn k) s (fun _ _ => True) := by
+  obtain ⟨r, s', h, adv⟩ := nextUintN_total k s w hk
+  obtain ⟨v, e⟩ := r
+  exact spec_of_eq (p := rUintNIgn k) (s' := s') (a := v) (by unfold rUintNIgn; rw [h]) adv trivial
+
+theorem spec_true {α : Type} {p : P α} {s : Src} {R : α → Src → Prop} (h : SpecAt p s R) :
+    SpecAt p s (fun _ _ => True) := spec_mono h (fun _ _ _ _ => trivial)
+
+theorem parseRawHeaderUnsigned_spec (s : Src) (w : s.wf) : SpecAt parseRawHeaderUnsigned s (fun _ _ => True) := by
+  unfold parseRawHeaderUnsigned
+  apply spec_bind' (skipIgn_spec _ s w)
+  intro _ s1 a1 _
+  apply spec_bind' (rUintNIgn_spec 4 (by unfold two64; omega) s1 (a1.wf w))
+  intro ht s2 a2 _
+  have w2 := a2.wf (a1.wf w)
+  apply spec_bind' (skipIgn_spec _ s2 w2)
+  intro _ s3 a3 _
+  have w3 := a3.wf w2
+  apply spec_bind' (rVarBytes_spec true s3 w3)
+  intro _ s4 a4 _
+  have w4 := a4.wf w3
+  apply spec_bind' (skipE_spec _ s4 w4)
+  intro _ s5 a5 _
+  exact spec_pure (a5.wf w4) trivial
+
+theorem parseRawHeader_spec (V : Variant) (s : Src) (w : s.wf) :
+    SpecAt (parseRawHeader V) s (fun r s' => r.payload = seg s s') := by
+  unfold parseRawHeader
+  apply spec_bind' (pos_spec s w)
+  intro pstart sx _ ⟨hp, hsx⟩
+  rw [hp, hsx]
+  apply spec_bind' (parseRawHeaderUnsigned_spec s w)
+  intro ht s1 a1 _
+  have w1 := a1.wf w
+  apply spec_bind' (rVarUint_spec true s1 w1)
+  intro n s2 a2 _
+  have w2 := a2.wf w1
+  apply spec_bind' (repeatP_spec' (rVarBytes true) writeVarBytes (fun _ => True) (rVarBytes_spec true) (loopCount V n) s2 w2)
+  intro _ s3 a3 _
+  have w3 := a3.wf w2
+  apply spec_bind' (rVarUint_spec true s3 w3)
+  intro m s4 a4 _
+  have w4 := a4.wf w3
+  apply spec_bind' (repeatP_spec' (rVarBytes true) writeVarBytes (fun _ => True) (rVarBytes_spec true) (loopCount V m) s4 w4)
+  intro _ s5 a5 _
+  have w5 := a5.wf w4
+  have adv5 : Adv s s5 := a1.trans (a2.trans (a3.trans (a4.trans a5)))
+  apply spec_bind' (captured_spec w adv5)
+  intro payload sy _ ⟨hpl, hsy⟩
+  rw [hsy]
+  exact spec_pure w5 hpl
+
+theorem allInvalid_spec {α : Type} {p : P α} {s : Src} {R : α → Src → Prop} (h : SpecAt p s R) :
+    SpecAt (allInvalid p) s R := by
+  unfold SpecAt at h ⊢
+  unfold allInvalid
+  cases hp : p s with
+  | ok a s' => rw [hp] at h; exact h
+  | err e => trivial
+  | panic => rw [hp] at h; exact h
+
+theorem parseCCMPrefix_spec (s : Src) (w : s.wf) :
+    SpecAt parseCCMPrefix s (fun a s' => seg s s' = [a.1] ++ writeUintN 4 a.2.1 ++ a.2.2.1 ++ writeVarUint a.2.2.2) := by
+  unfold parseCCMPrefix
+  apply enc_step (Adv.refl w) (seg_self s) (allInvalid_spec (rByte_spec s w))
+  intro v s1 _ adv1 acc1
+  apply enc_step adv1 acc1 (allInvalid_spec (rUintN_spec 4 (by unfold two64; omega) s1 (adv1.wf w)))
+  intro h s2 _ adv2 acc2
+  apply enc_step adv2 acc2 (allInvalid_spec (rBytesN_spec 32 (by unfold two64; omega) s2 (adv2.wf w)))
+  intro r s3 _ adv3 acc3
+  apply enc_step adv3 acc3 (allInvalid_spec (rVarUint_spec false s3 (adv3.wf w)))
+  intro n s4 _ adv4 acc4
+  apply spec_pure (adv4.wf w)
+  rw [acc4]
+  simp [writeUintN]
+
+theorem ccm_sigs_spec (n : Nat) (s : Src) (w : s.wf) :
+    SpecAt (allInvalid (repeatP n (rVarBytes false))) s
+      (fun l s' => seg s s' = (l.map writeVarBytes).flatten ∧ l.length = n) :=
+  allInvalid_spec (spec_mono (repeatP_spec' (rVarBytes false) writeVarBytes (fun _ => True) (rVarBytes_spec false) n s w)
+    (fun _ _ _ h => ⟨h.1, h.2.1⟩))
+
+/-- the rest of the decoder, whenever it does not hit the `makeslice` panic -/
+theorem parseCCMRest_spec (V : Variant) (a : UInt8 × Nat × Bytes × Nat) (hok : V = .asShipped → makeslicePanics a.2.2.2 = false)
+    (s : Src) (w : s.wf) :
+    SpecAt (parseCCMRest V a) s (fun m s' => seg s s' = (m.sigData.map writeVarBytes).flatten ∧
+      m.sigData.length = a.2.2.2 ∧ m.version = a.1 ∧ m.height = a.2.1 ∧ m.statesRoot = a.2.2.1) := by
+  have fin : ∀ k, k = a.2.2.2 → SpecAt (do
+      let sigs ← allInvalid (repeatP k (rVarBytes false))
+      pure (⟨a.1, a.2.1, a.2.2.1, sigs, a.2.2.2⟩ : CCMsg)) s (fun m s' => seg s s' = (m.sigData.map writeVarBytes).flatten ∧
+      m.sigData.length = a.2.2.2 ∧ m.version = a.1 ∧ m.height = a.2.1 ∧ m.statesRoot = a.2.2.1) := by
+    intro k hk
+    apply spec_bind' (ccm_sigs_spec k s w)
+    intro sigs s1 adv1 ⟨hseg, hl⟩
+    apply spec_pure (adv1.wf w)
+    exact ⟨hseg, by rw [← hk]; exact hl, rfl, rfl, rfl⟩
+  unfold parseCCMRest
+  cases V
+  · have hp := hok rfl
+    simp only [hp, Bool.false_eq_true]
+    apply fin
+    -- no panic means the count is far below 2^63, so the `int(n)` loop bound is the count
+    unfold makeslicePanics at hp
+    have : a.2.2.2 * sliceHeaderSize ≤ maxAlloc := by simpa using hp
+    unfold loopCount
+    have hlt : a.2.2.2 < two63 := by unfold sliceHeaderSize maxAlloc at this; unfold two63; omega
+    simp [hlt]
+  · exact fin _ rfl
+  · exact fin _ rfl
+
 
 end OntVerif.Proofs.Block
